@@ -1,6 +1,8 @@
 package main
 
 import (
+	"strings"
+
 	"github.com/Eyevinn/mp4ff/mp4"
 
 	"verifharness/hx"
@@ -46,8 +48,12 @@ var validMedia = []string{"video", "audio", "subtitle", "subtitles", "text", "wv
 var otherMedia = []string{"meta", "clcp", "vide", "soun", "subt", "auxv"}
 var badMedia = []string{"other", "", "roses", "vid"}
 
-var langs = []string{"en", "sv", "und", "eng", "swe", "fil", "en-US", "pt-BR", "zh-Hant", "es-419", "sr-Latn-RS", "de-CH-1996", "ENG", "x1", "abcdefgh"}
-var validLangs = []string{"en", "sv", "und", "eng", "swe", "fil", "zho", "en-US", "pt-BR", "zh-Hant", "es-419", "sr-Latn-RS", "de-CH-1996", "abcdefgh", "qaa"}
+// long well-formed BCP-47 tags (variants, extensions, private use): 27, 35, 36, 39 and 300 characters; the property's
+// quantifier has no upper bound on the tag length and neither have CreateElng / DecodeElng
+var longLangs = []string{"sl-Latn-IT-rozaj-biske-1994", "de-Latn-DE-1996-u-co-phonebk-x-abcd", "de-Latn-DE-1996-u-co-phonebk-x-inter",
+	"de-Latn-DE-1996-u-co-phonebk-x-internal", "x-" + strings.Repeat("abcdefgh-", 33) + "z"}
+var langs = append([]string{"en", "sv", "und", "eng", "swe", "fil", "en-US", "pt-BR", "zh-Hant", "es-419", "sr-Latn-RS", "de-CH-1996", "ENG", "x1", "abcdefgh"}, longLangs...)
+var validLangs = append([]string{"en", "sv", "und", "eng", "swe", "fil", "zho", "en-US", "pt-BR", "zh-Hant", "es-419", "sr-Latn-RS", "de-CH-1996", "abcdefgh", "qaa"}, longLangs...)
 
 var timescales = []uint32{0, 1, 1000, 12800, 44100, 48000, 90000, 180000, 10000000, 0x7fffffff, 0xffffffff}
 
